@@ -86,9 +86,13 @@ package record
 //@ func Record.DatabaseName
 //@   trusted
 //@   pure
+// the key a record is stored under (abstract; assumed of every Record implementation: the method
+// has no effect and its result depends on the record only)
+//@ spec recKey(r Record) string
 //@ func Record.DatabaseKey
 //@   trusted
 //@   pure
+//@   ensures r0 == recKey(recv)
 //@ func Record.IsWrapped
 //@   trusted
 //@   pure
